@@ -370,6 +370,34 @@ TableOOD(table) == \E i \in 1..Len(table) : \E c \in DOMAIN table[i] : table[i][
 ExecOOD(q, cq, table, sch) == TableOOD(table) \/ AnyWhereOOD(q, table, sch) \/ HasOOD(FullRows(q, cq, table, sch))
 
 -----------------------------------------------------------------------------
+(* Nesting (C08) and the wildcard (C07) on top of Compile / Exec.
+   A query may carry  sub  (an inner query: FROM (sub); NoE or absent: the base table) and  star  (TRUE: the wildcard target).
+   FROM (q) iterates the rows q returns, as a table whose columns are q's visible outputs, addressed by their
+   names, in order, typed alike; the wildcard expands to the columns of the table in declaration order. *)
+HasSub(q) == "sub" \in DOMAIN q /\ q.sub # NoE
+IsStar(q) == "star" \in DOMAIN q /\ q.star
+Flat(q, cols) == IF IsStar(q) THEN [q EXCEPT !.targets = [j \in 1..Len(cols) |-> [e |-> Col(cols[j]), as |-> ""]]] ELSE q
+RunFlat(q, table, sch, cols) ==
+    LET fq == Flat(q, cols) cq == Compile(fq, sch) IN
+    IF ~cq.ok THEN [ok |-> FALSE, err |-> cq.err, ood |-> FALSE, names |-> <<>>, types |-> <<>>, rows |-> <<>>]
+    ELSE IF ExecOOD(fq, cq, table, sch) THEN [ok |-> TRUE, err |-> "", ood |-> TRUE, names |-> <<>>, types |-> <<>>, rows |-> <<>>]
+    ELSE [ok |-> TRUE, err |-> "", ood |-> FALSE,
+          names |-> [j \in 1..cq.nvis |-> cq.ts[j].name],
+          types |-> [j \in 1..cq.nvis |-> TypeOf(cq.ts[j].e, sch)],
+          rows |-> Exec(fq, cq, table, sch)]
+Distinct(s) == \A i, j \in 1..Len(s) : i # j => s[i] # s[j]
+RECURSIVE Run(_, _, _, _)
+Run(q, table, sch, cols) ==
+    IF ~HasSub(q) THEN RunFlat(q, table, sch, cols)
+    ELSE LET inner == Run(q.sub, table, sch, cols) IN
+         IF ~inner.ok \/ inner.ood THEN inner
+         ELSE IF ~Distinct(inner.names) \/ Len(q.sub.pivot) # 0 THEN [inner EXCEPT !.ood = TRUE]   \* duplicate / pivoted inner names: not modelled
+         ELSE LET n == Len(inner.names)
+                  sch2 == [c \in SeqToSet(inner.names) |-> inner.types[PosIn(inner.names, c)]]
+                  tab2 == [i \in 1..Len(inner.rows) |-> [c \in SeqToSet(inner.names) |-> inner.rows[i][PosIn(inner.names, c)]]]
+              IN RunFlat(q, tab2, sch2, inner.names)
+
+-----------------------------------------------------------------------------
 (* Declarative statements (C01 C02 C03 C15) about the result, checked against the mechanism by TLC *)
 IsPerm(a, b) == Len(a) = Len(b) /\ \E f \in [1..Len(a) -> 1..Len(a)] :
                     (\A i, j \in 1..Len(a) : i # j => f[i] # f[j]) /\ \A i \in 1..Len(a) : a[i] = b[f[i]]
